@@ -300,13 +300,22 @@ def run(tier: str, seed: int) -> Result:
         n_fired += f
         for key, msg, rp in res:
             viols.append(Violation('C14', key, msg, rp, size=(rp['k1'] or 0) + (1000 if rp['k2'] else 0)))
+    # real SIGINT to the whole process group of real fork / spawn runs at a controlled rest point
+    from .. import e4b
+    scs = e4b.sigint_cases(tier)
+    n_real = 0
+    for r in pmap(e4b.sigint_case, scs):
+        n_real += 1
+        for p, key, msg in r['viols']:
+            viols.append(Violation('C14', key, msg, {'real_sigint': True, 'clause': key}, size=5000))
     cov = {
-        'evaluations': n_exec,
+        'real_sigint_runs': n_real,
+        'evaluations': n_exec + n_real,
         'distinct_nontrivial': n_fired,
         'rule': ('harnesses: 3-task DAGs (chain + independent; join with one node pre-cached) on the real SerialRunner and on the real fork/spawn ProcessRunner (max_workers 1,2) over the '
                  'virtual OS; single interrupt at every labtech line event k of the calling thread x every schedule within the deviation bound; double interrupts: first at one '
                  'representative event per distinct source line (quick: every ~n/40th), second at each of the following 120 (quick) / 400 events; distinct_nontrivial = executions in which the '
-                 'interrupt(s) actually fired'),
+                 'interrupt(s) actually fired; plus real SIGINT (single and double) sent to the process group of real fork/spawn runs while workers are blocked inside run()'),
         'samples': [{'harness': [k, cfg.brief()], 'line_events': counts[(k, repr(cfg))][0]} for k, cfg, d in hs[:4]],
         'line_events_per_harness': {f'{k}:{i}': counts[(k, repr(cfg))][0] for i, (k, cfg, d) in enumerate(hs)},
         'distinct_source_lines_as_first_interrupt': reps_total,
@@ -321,6 +330,14 @@ def run(tier: str, seed: int) -> Result:
 
 def replay(payload) -> int:
     silence_labtech()
+    if payload.get('real_sigint'):
+        from .. import e4b
+        found = []
+        for c in e4b.sigint_cases('quick'):
+            found += [v for v in e4b.sigint_case(c)['viols'] if v[1] == payload['clause']]
+        for v in found:
+            print(v)
+        return 1 if found else 0
     kind = payload['kind']
     cfg = e2.Config.from_json(payload['cfg']) if kind.startswith('serial') else e3.E3Config.from_json(payload['cfg'])
     intr = Interrupts(payload['k1'], payload['k2'])
